@@ -37,7 +37,8 @@ Simple == {"ptr","slice","array0","array1","array2","map_s","map_i","map_t","ifa
 StructSteps ==
   { "struct:" \o o \o ":" \o s :
       o \in {"plain","omitempty","string","omitempty+string"},
-      s \in {"alone","before-int","before-ptrstr","before-iface","after-int","after-ptrstr","after-iface"} }
+      s \in {"alone","before-int","before-ptrstr","before-iface","after-int","after-ptrstr","after-iface",
+              "mid-int","mid-ptrstr"} }       \* mid: a sibling before AND after (the member is neither first nor last)
 EmbedSteps == {"embedV","embedP","embedV-shadowed","embedP-shadowed"}
 AllSteps == Simple \cup StructSteps \cup EmbedSteps
 
@@ -52,6 +53,14 @@ Step(s) == /\ Len(ty.steps) < MaxSteps /\ CanApply(ty, s)
            /\ ty' = [ty EXCEPT !.steps = Append(@, s)]
 Next == \E s \in Steps : Step(s)
 Spec == Init /\ [][Next]_ty
+
+(* The member matrix: every leaf, directly or behind one pointer, as a struct member with every combination of tag options  *)
+(* and sibling position (the encoder and decoder have one opcode / decoder per leaf kind x pointer x option x position).   *)
+MatrixNext == \E s \in Steps :
+                /\ Step(s)
+                /\ (s = "ptr" => ty.steps = <<>>)
+                /\ (ty.steps # <<>> => ~IsStructStep(ty.steps[Len(ty.steps)]))
+MatrixSpec == Init /\ [][MatrixNext]_ty
 
 TypeOK == ty.leaf \in AllLeaves /\ \A i \in DOMAIN ty.steps : ty.steps[i] \in AllSteps
 (* an embed step is always preceded by a struct step *)
